@@ -129,6 +129,22 @@ def _trace(prog, f):
     return out
 
 
+ARGUMENTS_SHAPE = [('encode_size', 'len(arg1.0)'), ('encode', 'next(into_iter(arg1.0)) as Some.0.0'), ('encode', 'next(into_iter(arg1.0)) as Some.0.1')]
+
+
+def arguments_shape(prog, f, tr):
+    """ordered (call, value) list of the Arguments encoder; the closure form (size, then (try_)for_each over the same vector with a closure
+    that encodes .0 then .1 of its element) is reported in the shape of the loop form"""
+    shape = [(c, a[1]) for c, a, ty, g, _ in tr]
+    if shape == [('encode_size', 'len(arg1.0)')]:
+        cl = [g for g in prog.fns.values() if g.path.startswith(f.path + '::{closure#')]
+        ad = [c for c in f.calls() if c.name() in ('try_for_each', 'for_each') and not f.blocks[c.bb].get('cleanup')
+              and vexpr(f, c.args[0]) in ('iter(arg1.0)', 'into_iter(arg1.0)') and f.dominates(tr[0][4].bb, c.bb)]
+        if len(cl) == 1 and len(ad) == 1 and [(c, a[1]) for c, a, ty, g, _ in _trace(prog, cl[0])] == [('encode', 'arg2.0'), ('encode', 'arg2.1')]:
+            return list(ARGUMENTS_SHAPE)
+    return shape
+
+
 def r_schema_encoders(r, prog, repo):
     sc = Schema(repo)
     DECODED = ('GeneratedFile', 'Diagnostic')
@@ -264,8 +280,8 @@ def r_schema_encoders(r, prog, repo):
     if f is None:
         raise AnchorMissing('EncodeInto for Arguments')
     tr = _trace(prog, f)
-    shape = [(c, a[1]) for c, a, ty, g, _ in tr]
-    if re.match(r'^Dictionary<\s*string\s*,\s*string\s*>$', al) and shape == [('encode_size', 'len(arg1.0)'), ('encode', 'next(into_iter(arg1.0)) as Some.0.0'), ('encode', 'next(into_iter(arg1.0)) as Some.0.1')]:
+    shape = arguments_shape(prog, f, tr)
+    if re.match(r'^Dictionary<\s*string\s*,\s*string\s*>$', al) and shape == ARGUMENTS_SHAPE:
         r.ok('Arguments (%s): number of pairs, then key and value of every pair in order' % al)
     else:
         r.finding('arguments-layout', f.span, 'Arguments (%s) is written as %s' % (al, shape))
